@@ -103,3 +103,29 @@ func init() {
 		propMeta[id] = m
 	}
 }
+
+// wave 6 (completeness direction: legitimate things that must not be refused, lost or cut short)
+var addedRulesW6 = map[string]string{
+	"C01": " Tunnel worlds draw host names with capitals in a quarter of the runs; a quarter of the channel creates for the allowed host list 1-3 alternate resource names.",
+	"C02": " The provider's opaque tokens come in three spellings (plain, base64 with '=' padding, other VSCHARs); 1 run in 8 uses the file session store and access tokens of 3-3.6 kB; SplitUserDomain is drawn, the signed-in user may carry a domain part (also in mixed case) and the userinfo answer carries the name claims in half of the runs.",
+	"C03": " A quarter of the exact requests list 1-3 alternate resource names (only the first name is the one asked for).",
+	"C04": " Forwarded identifiers include non-canonical IPv6 spellings (one address in two spellings is not judged); 1 run in 6 has a chain of 8-32 X-Forwarded-For entries, at issuance, at use, or both.",
+	"C05": " In the NTLM flood a newcomer with correct credentials runs its whole exchange while the 1100 unfinished ones are parked.",
+	"C07": " 1 run in 5 (no other special situation) loses a legacy client's first RDG_OUT_DATA connection right after it was accepted; the client retries under the same connection id.  1 run in 50 opens 34-47 legacy tunnels at once (also in the quick tier).",
+	"C11": " 1 legacy run in 5 lets 2-51 s pass between the acceptance of RDG_IN_DATA and the client's first byte.  Step 6 (1 legacy run in 3 without leaks): the same client returns under the same connection id and must get a tunnel of its own.",
+	"C12": " The second host entry has capitals in half of the runs; 1 replay in 4 meets a userinfo endpoint that answers after 1-8 s.",
+	"C13": " User-name claims include DOMAIN\\user forms.  Successful logins run with the provider's clock 0 s - 4 min ahead of the gateway's; 1 in 25 has 515-714 other cookie-less visitors between redirect and callback.",
+	"C14": " The client's clock is skewed in 5 of 8 runs (+1 s, +10 min, +26 h, -10 min, -3 d); workstation, domain and one account name may be long (a 190-character principal).",
+	"C15": " User names include e, ey, eyJ, J, names in decomposed Unicode spelling, and names of 170 and 300 characters (tokens longer than 511 characters); a download that fails for a signed-in user is the violation 'no-user-token'.",
+	"C17": " With one tunnel, 1 run in 4 keeps the client quiet for 31-180 s between transport set-up and handshake.",
+	"C18": " A third of the file+environment runs list 30-59 hosts in the environment only.",
+	"C20": " The realm is spelled CORP.TEST, Corp.Test or corp.test (the other realm may then be CORP.TEST); dclocator-hint absent, 0, 1 or 0x40000000; the default realm may be given as an explicitly empty target-domain; 1 outage in 8 sees 30-49 requests fail.",
+}
+
+func init() {
+	for id, a := range addedRulesW6 {
+		m := propMeta[id]
+		m.Rule += a
+		propMeta[id] = m
+	}
+}
